@@ -279,7 +279,7 @@ def _stage_cases(ctx, rng):
     import direct.data.mri_transforms as M
     from direct.types import KspaceKey, TransformKey
 
-    n = ctx.budget(14, 120)
+    n = ctx.budget(30, 300)
     for _ in range(n):
         yield from _stage_set(rng)
 
@@ -489,13 +489,13 @@ def correspondence(ctx: Ctx):
              {**default_flags(), "ssl": 1, "keep_acs": 1, "estimate_smaps": 0}]
     for f in fixed:
         yield _verdict_case(ctx, rng, f, "verdict/fixed")
-    for _ in range(ctx.budget(40, 400)):
+    for _ in range(ctx.budget(90, 900)):
         f = random_flags(rng)
         yield _verdict_case(ctx, rng, f, "verdict/" + ("ssl" if f["ssl"] else "sup"))
     # (2) every stage on its own
     yield from _stage_cases(ctx, rng)
     # (3) whole pipelines, exactly
-    for i in range(ctx.budget(60, 600)):
+    for i in range(ctx.budget(150, 1500)):
         f = random_flags(rng, valid_only=True)
         f.update(rescale=0, pad=0, compress_coils=0, smap_gaussian=0, image_center_crop=1)
         nc = rng.choice([1, 2, 3, 4])
@@ -566,7 +566,7 @@ def oracle_configs(ctx: Ctx, deep: bool):
                      image_center_crop=int((recon + sm[1]) % 2 == 0), pad_coils=int(recon % 3 == 1),
                      compress_coils=0, body_coil=int(recon == 2), delete_acs=recon % 2)
             base.append(f)
-    n = ctx.budget(30, 400) * (3 if deep else 1)
+    n = ctx.budget(70, 900) * (3 if deep else 1)
     for _ in range(n):
         base.append({**random_flags(rng, valid_only=True), "delete_kspace": rng.choice([0, 0, 1])})
     return base
@@ -603,7 +603,7 @@ def oracle(ctx: Ctx, deep: bool = False):
         yield from check_config(cfg, k)
     # (vi) one mask per file name — also across different k-space values and slice numbers
     for f in (default_flags(), {**default_flags(), "ssl": 1, "delete_kspace": 0}, {**default_flags(), "crop": 1, "padding_eps": 0}):
-        for _ in range(ctx.budget(3, 20)):
+        for _ in range(ctx.budget(6, 40)):
             seed = rng.randrange(2 ** 31)
             name = "file_%d.h5" % rng.randrange(1000)
             nc, h, w = rng.choice([1, 3]), rng.choice([8, 10, 11]), rng.choice([16, 20, 23])
